@@ -506,13 +506,26 @@ func (f *Frame) applyContractFn(fc *FuncContract, callee *ssa.Function, name str
 	if clauses.modAll {
 		heap = f.havocAll(st.Heap)
 		for _, k := range fc.Keeps {
-			if fc.Trusted == "" {
-				f.fail("keeps is only allowed on trusted contracts (%s)", name)
+			if fc.Trusted == "" && fc.Kind != "interface" {
+				f.fail("keeps is only allowed on trusted and interface contracts (%s)", name)
 				break
 			}
 			t, err := f.w.ResolveType(k, fc.ScopePkg)
 			if err != nil {
 				f.fail("keeps %s: %v", k, err)
+				continue
+			}
+			if fc.Trusted == "" {
+				vc.Trusted["interface contract "+name+": objects of type "+k+" are left unchanged (assumed of every implementation)"] = true
+			}
+			if stt, ok := t.Underlying().(*types.Struct); ok {
+				// a struct type: the fields of its objects are left unchanged
+				so := f.w.Sorts.SortOf(t)
+				for i := 0; i < stt.NumFields(); i++ {
+					fld := stt.Field(i)
+					comp := fieldComp(so, fld.Name())
+					heap = heap.Set(comp, st.Heap.Comp(comp, ArraySort(SInt, f.w.Sorts.SortOf(fld.Type()))))
+				}
 				continue
 			}
 			comp := memCompT(t)
